@@ -46,7 +46,7 @@ def gen_overlay(outdir):
         for f in files:
             if f.endswith(".go"):
                 rel = os.path.relpath(d, inpkg)
-                tgt = os.path.join(REPO, rel, "zz_verif_" + f)
+                tgt = os.path.normpath(os.path.join(REPO, rel, "zz_verif_" + f))
                 if os.path.exists(tgt):
                     raise Inconclusive("overlay target exists in repo: " + tgt)
                 rep[tgt] = os.path.join(d, f)
